@@ -22,7 +22,8 @@
 //!       Real `repair_index(read_all)` runs; then all index files are read.
 //!       -> `ok <label>:u<unmarked listings>m<marked listings><=|x>,… ?<listings of unknown packs>`
 //!  * `repo <variant> <seed>`       oracle only (model prints `ok`): real repository on `MemBackend`; backups, then
-//!       variant ∈ backup | prune-fast | prune-copy | prune-all | copy | merge; afterwards EVERY pack in the store is opened by the
+//!       variant ∈ backup | prune-fast | prune-copy | prune-all | copy | merge | rewrite (snapshots rewritten with excluded files: new tree
+//!       packs) | repair-snapshots (a data pack lost, `repair index`, `repair snapshots`: new tree packs); afterwards EVERY pack in the store is opened by the
 //!       independent parser below with the master key and compared with the index.
 //!  * `repair <variant> <seed>`     oracle only: as `repo`, then a seeded subset of index files (variant all|some|none +
 //!       optional `-readall`) is deleted, `repair_index` runs, then `check` must be clean and every snapshot must read
@@ -364,6 +365,49 @@ pub fn generate(thorough: bool, rng: &mut Rng, ops: &mut Vec<String>, stats: &mu
         stats.add("pack.reads", reads.len() as u64);
         ops.push(format!("c08 pack {t} {} {}", if adds.is_empty() { "-".to_string() } else { adds.join("+") }, reads.join(",")));
     }
+    // --- packs with MANY blobs, up to the packer's count limit (`packn`): header of `MAX_COUNT` entries all compressed (41 bytes
+    // each: the largest header the packer can produce), all uncompressed, mixed; counts just below the limit and in between;
+    // `from_file` without hint, with hints 0 / exact / off by one / off by one entry / far too large, and a wrong pack size
+    {
+        let mut cases: Vec<(char, String, u64, char)> = vec![('d', "max".into(), 1, 'c'), ('t', "max".into(), 2, 'm'), ('d', "max".into(), 1, 'u'), ('t', "max".into(), 3, 'c')];
+        for _ in 0..(if thorough { 30 } else { 3 }) {
+            let n = match rng.below(3) {
+                0 => "max".to_string(),
+                1 => (9_990 + rng.below(10)).to_string(),
+                _ => (5_000 + rng.below(5_000)).to_string(),
+            };
+            cases.push((if rng.chance(1, 2) { 't' } else { 'd' }, n, rng.below(5), *rng.pick(&['c', 'c', 'm', 'u'])));
+        }
+        for (t, n, len, mode) in cases {
+            let mut reads = vec!["-:-".to_string(), "0:-".to_string(), "h0:-".to_string()];
+            for r in ["h-1:-", "h1:-", "h-41:-", "h-37:-", "h41:-", "h-4:-", "4294967295:-", "h0:77", "-:1000"] {
+                if rng.chance(1, 3) {
+                    reads.push(r.to_string());
+                }
+            }
+            reads.push(format!("{}:-", rng.below(500_000)));
+            stats.hit(format!("packn.{mode}.{}", if n == "max" { "count-limit" } else { "below-limit" }));
+            stats.add("pack.reads", reads.len() as u64);
+            ops.push(format!("c08 packn {t} {n} {len} {mode} {}", reads.join(",")));
+        }
+        // `parse`: a header as long as the largest the packer writes (10,000 entries), all compressed / mixed, whole and cut
+        for k in 0..(if thorough { 6 } else { 2 }) {
+            let mut h = Vec::with_capacity(410_000);
+            for i in 0..10_000u64 {
+                let mut id = [0u8; 32];
+                id[..8].copy_from_slice(&i.to_be_bytes());
+                id[8..16].copy_from_slice(&rng.next().to_le_bytes());
+                let ul = if k % 2 == 0 || i % 3 != 0 { Some(1 + rng.below(70_000) as u32) } else { None };
+                encode_entry(&mut h, k % 2 == 1 && rng.chance(1, 2), 1 + rng.below(60_000) as u32, ul, &id);
+            }
+            if k >= 2 {
+                let cut = rng.below(h.len() as u64) as usize;
+                h.truncate(cut);
+            }
+            stats.hit("parse.count-limit-header");
+            ops.push(format!("c08 parse {}", hex(&h)));
+        }
+    }
     // --- repair_index model correspondence
     for _ in 0..(if thorough { 600 } else { 60 }) {
         let np = rng.below(6) as usize;
@@ -437,8 +481,8 @@ pub fn generate(thorough: bool, rng: &mut Rng, ops: &mut Vec<String>, stats: &mu
         ));
     }
     // --- repositories
-    let variants = ["backup", "prune-fast", "prune-copy", "prune-all", "copy", "merge"];
-    let n_repo = if thorough { 72 } else { 12 };
+    let variants = ["backup", "prune-fast", "prune-copy", "prune-all", "copy", "merge", "rewrite", "repair-snapshots"];
+    let n_repo = if thorough { 96 } else { 16 };
     for i in 0..n_repo {
         let v = variants[i % variants.len()];
         stats.hit(format!("repo.{v}"));
@@ -491,6 +535,14 @@ pub fn generate(thorough: bool, rng: &mut Rng, ops: &mut Vec<String>, stats: &mu
         for _ in 0..(if thorough { *t } else { *q }) {
             stats.hit(format!("order.{v}"));
             ops.push(format!("c08 order {v} {}", rng.below(1 << 40)));
+        }
+    }
+    // a repository holding a data pack that was closed by the packer's blob-COUNT limit (tiny chunks, compression on), whose
+    // index entry is lost: `repair index` must bring it back (quick: ≈ 2 s each)
+    for v in ["fullpack", "fullpack-readall"] {
+        for _ in 0..(if thorough { 4 } else { 1 }) {
+            stats.hit(format!("repair.{v}"));
+            ops.push(format!("c08 repair {v} {}", rng.below(1 << 40)));
         }
     }
     let rv = ["all", "some", "none", "all-readall", "some-readall", "none-readall", "badhint"];
@@ -556,17 +608,73 @@ fn exec_pack(t: &str, adds: &str, reads: &str) -> String {
             add_list.push((id, len, ul));
         }
     }
-    let mut read_list: Vec<(Option<u32>, Option<u32>)> = Vec::new();
+    let mut read_list: Vec<(Option<Hint>, Option<u32>)> = Vec::new();
     for r in reads.split(',') {
         let Some((h, p)) = r.split_once(':') else { return "bad-op".into() };
-        let hh = if h == "-" { None } else { match h.parse::<u32>() { Ok(x) => Some(x), Err(_) => return "bad-op".into() } };
+        let hh = if h == "-" { None } else { match h.parse::<u32>() { Ok(x) => Some(Hint::Abs(x)), Err(_) => return "bad-op".into() } };
         let pp = if p == "-" { None } else { match p.parse::<u32>() { Ok(x) => Some(x), Err(_) => return "bad-op".into() } };
         read_list.push((hh, pp));
     }
+    pack_case(bt, &add_list, None, read_list, false)
+}
+
+/// `packn <t|d> <n|max> <len> <c|u|m> <reads>`: a pack with MANY blobs without a huge op line — `n` blobs (ids = running number,
+/// `len` deterministic bytes each; `max` = blobs are added until the real `BasicPacker::should_save()` answers true under an
+/// unlimited size limit, i.e. the pack is closed by the packer's COUNT limit `MAX_COUNT`; the model uses the regenerated
+/// `PACKER_MAX_COUNT`), header entries all compressed (`c`: 41-byte entries), all uncompressed (`u`: 37 bytes) or mixed (`m`:
+/// every third uncompressed); then the same oracles and `from_file` reads as `pack` (a hint `h<±k>` is relative to the true size
+/// of the encrypted header).  -> `ok n=<#blobs> hsize=<header size> first=<blob> last=<blob> len=<file length> ff=<…>`
+fn exec_packn(t: &str, n: &str, len: &str, mode: &str, reads: &str) -> String {
+    let bt = match t {
+        "t" => BlobType::Tree,
+        "d" => BlobType::Data,
+        _ => return "bad-op".into(),
+    };
+    let n: Option<usize> = if n == "max" { None } else { match n.parse::<usize>() { Ok(n) if n <= 20_000 => Some(n), _ => return "bad-op".into() } };
+    let Ok(len) = len.parse::<usize>() else { return "bad-op".into() };
+    if len > 64 || !["c", "u", "m"].contains(&mode) {
+        return "bad-op".into();
+    }
+    let ulen = |k: usize| -> Option<NonZeroU32> {
+        match mode {
+            "c" => NonZeroU32::new(len as u32 + 7),
+            "u" => None,
+            _ => if k % 3 == 0 { None } else { NonZeroU32::new(len as u32 + 7) },
+        }
+    };
+    let add_list: Vec<(Id, usize, Option<NonZeroU32>)> = (0..n.unwrap_or(20_000)).map(|k| (label_id(k as u64), len, ulen(k))).collect();
+    let mut read_list: Vec<(Option<Hint>, Option<u32>)> = Vec::new();
+    for r in reads.split(',') {
+        let Some((h, p)) = r.split_once(':') else { return "bad-op".into() };
+        let hh = if h == "-" {
+            None
+        } else if let Some(rel) = h.strip_prefix('h') {
+            match rel.parse::<i64>() { Ok(x) if x.abs() < 1 << 20 => Some(Hint::Rel(x)), _ => return "bad-op".into() }
+        } else {
+            match h.parse::<u32>() { Ok(x) => Some(Hint::Abs(x)), Err(_) => return "bad-op".into() }
+        };
+        let pp = if p == "-" { None } else { match p.parse::<u32>() { Ok(x) => Some(x), Err(_) => return "bad-op".into() } };
+        read_list.push((hh, pp));
+    }
+    pack_case(bt, &add_list, Some(n.is_none()), read_list, true)
+}
+
+/// size hint of a `from_file` read: absolute, or relative to the true size of the encrypted header
+#[derive(Clone, Copy)]
+enum Hint {
+    Abs(u32),
+    Rel(i64),
+}
+
+/// Shared body of `pack` / `packn`.  `until_full`: `Some(true)` = stop adding as soon as the real packer says `should_save()`.
+fn pack_case(bt: BlobType, add_list: &[(Id, usize, Option<NonZeroU32>)], until_full: Option<bool>, read_list: Vec<(Option<Hint>, Option<u32>)>, compact: bool) -> String {
     let key = Key::new();
     let mut packer = BasicPackerHook::new(bt, PackSizer::fixed(u32::MAX));
     let mut first_data: BTreeMap<Id, Vec<u8>> = BTreeMap::new();
-    for (id, len, ul) in &add_list {
+    for (id, len, ul) in add_list {
+        if until_full == Some(true) && packer.should_save() {
+            break;
+        }
         let data = det_data(id, *len);
         _ = first_data.entry(*id).or_insert_with(|| data.clone());
         if let Err(e) = packer.add_raw(Bytes::from(data), &BlobId::from(*id), *len as u64, *ul) {
@@ -637,6 +745,10 @@ fn exec_pack(t: &str, adds: &str, reads: &str) -> String {
     let dbe = DecryptBackend::new(Arc::new(be) as Arc<dyn WriteBackend>, key);
     let mut ff = Vec::new();
     for (hint, ps) in read_list {
+        let hint: Option<u32> = hint.map(|x| match x {
+            Hint::Abs(a) => a,
+            Hint::Rel(r) => (hl as i64 + r).max(0) as u32,
+        });
         let true_size = ps.is_none() || ps == Some(bytes.len() as u32);
         let r = guarded(std::panic::AssertUnwindSafe(|| match pf::from_file(&dbe, PackId::from(pid), hint, ps.unwrap_or(bytes.len() as u32)) {
             Ok(bl) => {
@@ -661,6 +773,17 @@ fn exec_pack(t: &str, adds: &str, reads: &str) -> String {
         .iter()
         .map(|b| format!("{}.{}.{}.{}.{}", &b.id.to_hex().as_str()[..8], t_str(b.tpe), b.location.offset, b.location.length, ulen_str(b.location.uncompressed_length)))
         .collect();
+    if compact {
+        return format!(
+            "ok n={} hsize={} first={} last={} len={} ff={}",
+            bl.len(),
+            hl,
+            bl.first().map_or("-", |s| s.as_str()),
+            bl.last().map_or("-", |s| s.as_str()),
+            bytes.len(),
+            ff.join(",")
+        );
+    }
     format!("ok blobs={} len={} ff={}", if bl.is_empty() { "-".to_string() } else { bl.join(",") }, bytes.len(), ff.join(","))
 }
 
@@ -921,6 +1044,60 @@ fn build_on(be: MemBackend, be2: MemBackend, rng: &mut Rng, variant: &str) -> Re
             let r2 = h.open_nocache().map_err(|e| errkind(&e))?.to_indexed().map_err(|e| errkind(&e))?;
             _ = repo::read_back(&r2, &merged).map_err(|_| "oracle-fail:merged-snapshot-unreadable".to_string())?;
         }
+        "rewrite" => {
+            // rewrite all snapshots with some files excluded: new trees are written (tree packs); the old snapshots stay
+            // (RewriteOptions::default keeps them) and must read back, the rewritten ones must be readable as a whole
+            let repo = h.open_nocache().map_err(|e| errkind(&e))?.to_indexed().map_err(|e| errkind(&e))?;
+            let all: Vec<SnapshotFile> = snaps.iter().map(|(s, _)| s.clone()).collect();
+            let glob = format!("!**/f00{}*", rng.below(8));
+            let topts = rustic_core::RewriteTreesOptions::default().excludes(rustic_core::Excludes::default().globs(vec![glob, "!**/d1/*".to_string()]));
+            let new = repo.rewrite_snapshots_and_trees(all, &rustic_core::RewriteOptions::default(), &topts).map_err(|e| errkind(&e))?;
+            let r2 = h.open_nocache().map_err(|e| errkind(&e))?.to_indexed().map_err(|e| errkind(&e))?;
+            if std::env::var("C08_DEBUG").is_ok() {
+                eprintln!("rewrite: {} new snapshots, {} with a new tree", new.len(), new.iter().filter(|n| snaps.iter().all(|(s, _)| s.tree != n.tree)).count());
+            }
+            for s in &new {
+                _ = repo::read_back(&r2, s).map_err(|_| "oracle-fail:rewritten-snapshot-unreadable".to_string())?;
+            }
+        }
+        "repair-snapshots" => {
+            // lose one data pack (file and index entry stay consistent: the pack is removed from storage and `repair index`
+            // drops it), then `repair snapshots` writes new trees without the damaged files; every pack that exists afterwards
+            // must still describe itself.  The original snapshots are replaced — only pack / index agreement is checked.
+            let packs = h.be.ids(FileType::Pack);
+            let repo = h.open_nocache().map_err(|e| errkind(&e))?.to_indexed().map_err(|e| errkind(&e))?;
+            let data_packs: Vec<Id> = {
+                let mut v = vec![];
+                for id in &h.be.ids(FileType::Index) {
+                    let f = rustic_core::verif::repository::dbe(&repo).get_file::<IndexFile>(&rustic_core::repofile::IndexId::from(*id)).map_err(|e| errkind(&e))?;
+                    v.extend(f.packs.iter().filter(|p| p.blob_type() == BlobType::Data && !p.blobs.is_empty()).map(|p| Id::from(*p.id)));
+                }
+                v.sort();
+                v
+            };
+            drop(repo);
+            if let Some(victim) = data_packs.get(rng.below(data_packs.len().max(1) as u64) as usize) {
+                if packs.contains(victim) {
+                    h.be.del_raw(FileType::Pack, victim);
+                }
+                let repo = h.open_nocache().map_err(|e| errkind(&e))?;
+                repo.repair_index(&RepairIndexOptions::default(), false).map_err(|e| errkind(&e))?;
+                let repo = h.open_nocache().map_err(|e| errkind(&e))?.to_indexed().map_err(|e| errkind(&e))?;
+                let all: Vec<SnapshotFile> = snaps.iter().map(|(s, _)| s.clone()).collect();
+                repo.repair_snapshots(&rustic_core::RepairSnapshotsOptions::default(), all, false).map_err(|e| errkind(&e))?;
+                drop(repo);
+                // what is left: the repaired snapshots (the damaged originals stay, tagged or not — they are not read here)
+                let repo = h.open_nocache().map_err(|e| errkind(&e))?;
+                let now = repo.get_all_snapshots().map_err(|e| errkind(&e))?;
+                let r2 = h.open_nocache().map_err(|e| errkind(&e))?.to_indexed().map_err(|e| errkind(&e))?;
+                let originals: BTreeSet<Id> = snaps.iter().map(|(s, _)| Id::from(*s.id)).collect();
+                for s in now.iter().filter(|s| !originals.contains(&Id::from(*s.id))) {
+                    _ = repo::read_back(&r2, s).map_err(|_| "oracle-fail:repaired-snapshot-unreadable".to_string())?;
+                }
+                _ = verify_packs(&h)?;
+                return Ok(Scenario { h, snaps: vec![] });
+            }
+        }
         "copy" => {
             let cfg2 = config_for(rng);
             let (h2, _r2) = RepoHandle::init_nocache(be2, None, &cfg2).map_err(|e| errkind(&e))?;
@@ -997,12 +1174,128 @@ fn exec_repo(variant: &str, seed: u64) -> String {
     "ok".into()
 }
 
+/// How many blobs the real packer lets into one pack when the size limit does not matter (`BasicPacker::should_save` with an
+/// unlimited `PackSizer`): its blob-count limit (`blob/packer.rs constants::MAX_COUNT`), measured, not copied.
+fn packer_count_limit() -> usize {
+    let mut packer = BasicPackerHook::new(BlobType::Data, PackSizer::fixed(u32::MAX));
+    let mut k = 0u64;
+    while !packer.should_save() && k < 1_000_000 {
+        if packer.add_raw(Bytes::from_static(b"x"), &BlobId::from(label_id(k)), 1, None).is_err() {
+            break;
+        }
+        k += 1;
+    }
+    k as usize
+}
+
+/// `repair fullpack[-readall] <seed>`: a repository (compression on: default or a seeded zstd level) with the fixed-size chunker and
+/// chunks of 4..16 bytes; a small backup, then a backup of one file of (count limit + 500..3000) pairwise different chunks — the
+/// data packer closes a pack BY COUNT (10,000 compressed blobs: the largest header there is) — then another small backup.  The
+/// index files listing the full pack (or all index files) are removed, `repair_index` runs; afterwards every stored pack must be
+/// indexed again with all its blobs, `check --read-data` must be clean, every snapshot must read back, all packs must verify.
+fn exec_repair_fullpack(rng: &mut Rng, readall: bool) -> String {
+    let limit = packer_count_limit();
+    let chunk = *rng.pick(&[4u64, 8, 8, 12, 16]);
+    let mut cfg = ConfigOptions::default().set_chunker(rustic_core::repofile::Chunker::FixedSize).set_chunk_size(bytesize::ByteSize(chunk));
+    if rng.chance(1, 2) {
+        cfg = cfg.set_compression(rng.range(1, 9) as i32);
+    }
+    let (h, _repo) = match RepoHandle::init_nocache(MemBackend::new(), None, &cfg) {
+        Ok(x) => x,
+        Err(e) => return errkind(&e),
+    };
+    let mut sc = Scenario { h, snaps: vec![] };
+    let salt = rng.next() as u32;
+    let n = limit as u64 + 500 + rng.below(2_500);
+    let mut content = Vec::with_capacity((n * chunk) as usize);
+    for k in 0..n {
+        let mut block = vec![0u8; chunk as usize];
+        block[..4].copy_from_slice(&(k as u32).to_le_bytes());
+        if chunk >= 8 {
+            block[4..8].copy_from_slice(&salt.to_le_bytes());
+        }
+        content.extend_from_slice(&block);
+    }
+    let small = |tag: &[u8]| MemSource::new(vec![SrcEntry::file(&[b"d", tag], &[tag, b" some other content"].concat()), SrcEntry::file(&[tag], tag)]);
+    let sources = [small(b"first"), MemSource::new(vec![SrcEntry::file(&[b"many-chunks"], &content), SrcEntry::file(&[b"small"], b"x")]), small(b"last")];
+    for src in &sources {
+        let snap = match SnapshotOptions::default().to_snapshot() {
+            Ok(s) => s,
+            Err(e) => return errkind(&e),
+        };
+        match repo::backup_nocache(&sc.h, src, &BackupOptions::default(), snap) {
+            Ok(s) => sc.snaps.push((s, expected_with_root(src))),
+            Err(e) => return errkind(&e),
+        }
+    }
+    // the listing before: pack -> number of blobs, and which index files list the count-limited pack(s)
+    let listing = |h: &RepoHandle| -> Result<(BTreeMap<Id, usize>, BTreeMap<Id, Vec<Id>>), String> {
+        let repo = h.open_nocache().map_err(|e| errkind(&e))?;
+        let dbe = rustic_core::verif::repository::dbe(&repo);
+        let mut blobs = BTreeMap::new();
+        let mut by_file: BTreeMap<Id, Vec<Id>> = BTreeMap::new();
+        for id in h.be.ids(FileType::Index) {
+            let f = dbe.get_file::<IndexFile>(&rustic_core::repofile::IndexId::from(id)).map_err(|e| errkind(&e))?;
+            for p in f.packs.iter() {
+                *blobs.entry(Id::from(*p.id)).or_insert(0) += p.blobs.len();
+                by_file.entry(id).or_default().push(Id::from(*p.id));
+            }
+        }
+        Ok((blobs, by_file))
+    };
+    let (before, by_file) = match listing(&sc.h) {
+        Ok(x) => x,
+        Err(e) => return e,
+    };
+    let full: BTreeSet<Id> = before.iter().filter(|(_, n)| **n >= limit).map(|(p, _)| *p).collect();
+    if full.is_empty() {
+        return format!("oracle-fail:setup-no-count-limited-pack:{}", before.values().max().copied().unwrap_or(0));
+    }
+    let all = rng.chance(1, 2);
+    let victims: Vec<Id> = by_file.iter().filter(|(_, ps)| all || ps.iter().any(|p| full.contains(p)) || rng.chance(1, 3)).map(|(f, _)| *f).collect();
+    for v in &victims {
+        sc.h.be.del_raw(FileType::Index, v);
+    }
+    {
+        let repo = match sc.h.open_nocache() {
+            Ok(r) => r,
+            Err(e) => return errkind(&e),
+        };
+        if let Err(e) = repo.repair_index(&RepairIndexOptions::default().read_all(readall), false) {
+            return errkind(&e);
+        }
+    }
+    let after = match listing(&sc.h) {
+        Ok(x) => x.0,
+        Err(e) => return e,
+    };
+    if after != before {
+        let lost = before.keys().filter(|p| !after.contains_key(*p)).count();
+        return format!("oracle-fail:repair-index-lost-packs:{lost}-of-{}", before.len());
+    }
+    match repo::check_errors_nocache(&sc.h, true) {
+        Some(0) => {}
+        Some(_) => return "oracle-fail:check-after-repair".into(),
+        None => return "oracle-fail:check-failed-to-run".into(),
+    }
+    if let Err(e) = read_all(&sc) {
+        return e;
+    }
+    if let Err(e) = verify_packs(&sc.h) {
+        return e;
+    }
+    "ok".into()
+}
+
 fn exec_repair(variant: &str, seed: u64) -> String {
     let mut rng = Rng::new(seed);
     let (which, readall) = match variant.strip_suffix("-readall") {
         Some(w) => (w, true),
         None => (variant, false),
     };
+    if which == "fullpack" {
+        return exec_repair_fullpack(&mut rng, readall);
+    }
     let scen = *rng.pick(&["backup", "prune-fast", "prune-copy", "prune-all"]);
     let sc = match build(&mut rng, scen) {
         Ok(s) => s,
@@ -1663,6 +1956,7 @@ pub fn exec(t: &[&str]) -> String {
         ["hdr", blobs] => exec_hdr(blobs),
         ["parse", h] => exec_parse(h),
         ["pack", t, adds, reads] => exec_pack(t, adds, reads),
+        ["packn", t, n, len, mode, reads] => exec_packn(t, n, len, mode, reads),
         ["rix", ra, packs, files] if *ra == "0" || *ra == "1" => exec_rix(*ra == "1", packs, files),
         ["pw", dl, tl, fail, adds] => {
             let f = if *fail == "-" { Some(None) } else { fail.parse::<usize>().ok().map(Some) };
@@ -1676,11 +1970,11 @@ pub fn exec(t: &[&str]) -> String {
             _ => "bad-op".into(),
         },
         ["repo", variant, seed] => match seed.parse::<u64>() {
-            Ok(s) if ["backup", "prune-fast", "prune-copy", "prune-all", "copy", "merge"].contains(variant) => exec_repo(variant, s),
+            Ok(s) if ["backup", "prune-fast", "prune-copy", "prune-all", "copy", "merge", "rewrite", "repair-snapshots"].contains(variant) => exec_repo(variant, s),
             _ => "bad-op".into(),
         },
         ["repair", variant, seed] => match seed.parse::<u64>() {
-            Ok(s) if ["all", "some", "none", "all-readall", "some-readall", "none-readall", "badhint"].contains(variant) => exec_repair(variant, s),
+            Ok(s) if ["all", "some", "none", "all-readall", "some-readall", "none-readall", "badhint", "fullpack", "fullpack-readall"].contains(variant) => exec_repair(variant, s),
             _ => "bad-op".into(),
         },
         _ => "bad-op".into(),
